@@ -100,8 +100,8 @@ def shape_preserved(ex, before, after, name, st):
 
 class Iteration:
     """n items; elem(i) -> SV bound to the loop target"""
-    def __init__(self, n, elem, roots=()):
-        self.n, self.elem = n, elem
+    def __init__(self, n, elem, roots=(), seq=None):
+        self.n, self.elem, self.seq = n, elem, seq
 
 
 def iteration_of(ex, it_e, st):
@@ -145,7 +145,7 @@ def iteration_of(ex, it_e, st):
     if isinstance(v, SSet):
         raise Unsupported('for-loop over a set (iteration order is not a function of the value)')
     seq = seq_term(ex, v, st, 'iterable')
-    return Iteration(z3.Length(seq), lambda i: V(seq[i]))
+    return Iteration(z3.Length(seq), lambda i: V(seq[i]), seq=seq)
 
 
 def loop_setup(ex, st, body_mods):
@@ -224,6 +224,14 @@ def run_for(ex, st):
         ex.in_loop_body -= 1
         ex.ghost['_i'] = V(VInt(i + 1))
         ex.ghost[iname] = ex.ghost['_i']
+        if it.seq is not None:
+            # theorems of the sequence theory that the solvers do not find by themselves: the prefix
+            # of length i+1 is the prefix of length i followed by element i (0 <= i < len)
+            pre1 = z3.SubSeq(it.seq, 0, i + 1)
+            ex.pc.append(z3.SubSeq(pre1, 0, i) == z3.SubSeq(it.seq, 0, i))
+            ex.pc.append(pre1[i] == it.seq[i])
+            ex.pc.append(z3.Length(pre1) == i + 1)
+            ex.pc.append(pre1 == z3.Concat(z3.SubSeq(it.seq, 0, i), z3.Unit(it.seq[i])))
         for j, inv in enumerate(invs):
             ex.oblige('inv-step', eval_spec(ex, inv), label='loop%d.step.%d' % (ord_, j))
         for nm, b in before.items():
